@@ -59,6 +59,9 @@ func translateValue(v ssa.Value, bind map[*ssa.Parameter]ssa.Value, depth int) s
 					if sv := spilledValue(al); sv != nil {
 						tv := translateValue(sv, bind, depth+1)
 						if tv != sv {
+							if lv := literalFieldValue(tv, fa.Field); lv != nil {
+								return lv
+							}
 							f := &ssa.Field{X: tv, Field: fa.Field}
 							setRegType(f, x.Type())
 							return f
@@ -86,6 +89,9 @@ func translateValue(v ssa.Value, bind map[*ssa.Parameter]ssa.Value, depth int) s
 		tx := translateValue(x.X, bind, depth+1)
 		if tx == x.X {
 			return v
+		}
+		if lv := literalFieldValue(tx, x.Field); lv != nil {
+			return lv
 		}
 		f := &ssa.Field{X: tx, Field: x.Field}
 		setRegType(f, x.Type())
@@ -219,4 +225,82 @@ func spilledValue(al *ssa.Alloc) ssa.Value {
 		return nil
 	}
 	return val
+}
+
+// literalFieldValue: sv is the value of a local composite literal (a load of an Alloc that is only built field by field
+// and read as a whole): the value stored into field #field (nil when sv is not such a load, the field is not assigned
+// exactly once, or the struct's address is used in any other way). A small struct built at a call site to carry
+// arguments (`f(run, target{account: a, amount: x})`) is thereby transparent: the callee's `target.amount` is x.
+func literalFieldValue(sv ssa.Value, field int) ssa.Value {
+	u, ok := sv.(*ssa.UnOp)
+	if !ok || u.Op != token.MUL {
+		return nil
+	}
+	al, ok := u.X.(*ssa.Alloc)
+	if !ok || al.Referrers() == nil {
+		return nil
+	}
+	var val ssa.Value
+	n := 0
+	for _, ref := range *al.Referrers() {
+		switch r := ref.(type) {
+		case *ssa.FieldAddr:
+			if r.Referrers() == nil {
+				continue
+			}
+			for _, r2 := range *r.Referrers() {
+				switch y := r2.(type) {
+				case *ssa.Store:
+					if y.Addr != ssa.Value(r) {
+						return nil
+					}
+					if r.Field == field {
+						val = y.Val
+						n++
+					}
+				case *ssa.UnOp, *ssa.DebugRef:
+				default:
+					return nil
+				}
+			}
+		case *ssa.UnOp:
+			if r.Op != token.MUL {
+				return nil
+			}
+		case *ssa.DebugRef:
+		default:
+			return nil
+		}
+	}
+	if n != 1 {
+		return nil
+	}
+	return val
+}
+
+// literalArgFields: the values a composite-literal argument carries (field index -> value), nil when arg is not a
+// load of a local literal.
+func literalArgFields(arg ssa.Value) map[int]ssa.Value {
+	u, ok := arg.(*ssa.UnOp)
+	if !ok || u.Op != token.MUL {
+		return nil
+	}
+	al, ok := u.X.(*ssa.Alloc)
+	if !ok {
+		return nil
+	}
+	st, ok := al.Type().Underlying().(*types.Pointer).Elem().Underlying().(*types.Struct)
+	if !ok {
+		return nil
+	}
+	out := map[int]ssa.Value{}
+	for i := 0; i < st.NumFields(); i++ {
+		if v := literalFieldValue(arg, i); v != nil {
+			out[i] = v
+		}
+	}
+	if len(out) == 0 {
+		return nil
+	}
+	return out
 }
